@@ -65,6 +65,32 @@ def roles_for(fn, decl):
     return roles
 
 
+def analyse_module(m, api, cname):
+    """run the taint engine to its global fixpoint -> (engine, {sink key: (sink, root)}, n roots)"""
+    eng = taint.Engine(m)
+    roots = []
+    for name, decl in sorted(api.items()):
+        if name in NOT_KEYED:
+            continue
+        f = m.funcs.get(name)
+        if f is None or f.decl:
+            continue
+        roots.append((name, roles_for(name, decl)))
+    if len(roots) < 150:
+        raise repo.AnalysisBroken("only %d keyed roots defined in %s" % (len(roots), cname))
+    found = {}
+    for rnd in range(6):
+        eng.run()
+        before = dict(eng.FIELD)
+        found = {}
+        for name, roles in roots:
+            for s in eng.evaluate_root(name, roles):
+                found.setdefault(s.key(), (s, name))
+        if eng.FIELD == before:
+            break
+    return eng, found, len(roots)
+
+
 def run(rep, tier):
     rep.explanation = (
         "Taint analysis from every keyed public function (all functions of src/ascon/*.h except the hex "
@@ -93,28 +119,8 @@ def run(rep, tier):
         cname = "%s/%s" % (b.cfg.name, kw["level"])
         rep.configs.append(cname)
         rep.units.update(lr.units)
-        eng = taint.Engine(m)
-        roots = []
-        for name, decl in sorted(api.items()):
-            if name in NOT_KEYED:
-                continue
-            f = m.funcs.get(name)
-            if f is None or f.decl:
-                # defined in an assembly unit (permutation primitives) or inline
-                continue
-            roots.append((name, roles_for(name, decl)))
-        if len(roots) < 150:
-            raise repo.AnalysisBroken("only %d keyed roots defined in %s" % (len(roots), cname))
-        # global fixpoint: field map grows from root evaluation
-        for rnd in range(6):
-            eng.run()
-            before = dict(eng.FIELD)
-            found = {}
-            for name, roles in roots:
-                for s in eng.evaluate_root(name, roles):
-                    found.setdefault(s.key(), (s, name))
-            if eng.FIELD == before:
-                break
+        eng, found, nroots = analyse_module(m, api, cname)
+        roots = [None] * nroots
         rep.functions += len(eng.summ)
         nsinks = sum(len(s.sinks) for s in eng.summ.values())
         total_sinks += nsinks
